@@ -28,7 +28,7 @@ def stNum : UState → Nat
   | .idle => 0 | .started => 1 | .processing => 2 | .ended => 3
 
 def showSt (s : St) : String :=
-  s!"st={stNum s.state} nmfc={s.nMfcFrame} mfco={s.mfcOutidx} nfeat={s.nFeatFrame} fo={s.featOutidx} of={s.outputFrame} alloc={s.nFeatAlloc} grow={if s.growFeat then 1 else 0} bp={s.bufpos} cp={s.curpos}" ++
+  s!"st={stNum s.state} nmfc={s.nMfcFrame} mfco={s.mfcOutidx} nfeat={s.nFeatFrame} fo={s.featOutidx} of={s.outputFrame} alloc={s.nFeatAlloc} grow={if s.growFeat then 1 else 0} bp={s.bufpos} cp={s.curpos} malloc={s.nMfcAlloc}" ++
   (match s.fault with | none => "" | some m => " FAULT=" ++ m.replace " " "_")
 
 /-- print what was handed to the searches since the last line, then the counters -/
@@ -48,6 +48,13 @@ def parseResps (w : String) : Option (List FeResp) :=
       | _, _ => none
     | _ => none
 
+def parseFull (w : String) : Option (List FullResp) :=
+  if w = "-" then some [] else
+  (w.splitOn ",").mapM fun t =>
+    match (t.splitOn ":").map String.toNat? with
+    | [some e, some n, some m, some tl] => some ⟨e, n, m != 0, tl != 0⟩
+    | _ => none
+
 def noSkip : Nat → Bool := fun _ => false
 
 def step (d : D) (ws : List String) : D × String :=
@@ -65,6 +72,10 @@ def step (d : D) (ws : List String) : D × String :=
   | ["p", ns, rs] =>
     match parseResps rs with
     | some rs => emit d (SSVerif.AcmodBuf.step d.fix d.win noSkip d.s (.process (ns != "0") rs))
+    | none => (d, "bad-op")
+  | ["pfull", ns, rs] =>
+    match parseFull rs with
+    | some rs => emit d (SSVerif.AcmodBuf.step d.fix d.win noSkip d.s (.processFull (ns != "0") rs))
     | none => (d, "bad-op")
   | ["q"] => emit d (SSVerif.AcmodBuf.step d.fix d.win noSkip d.s .query)
   | ["align", r, n] =>
